@@ -192,8 +192,43 @@ def uniformity_test(t, mask, lv):
     return False
 
 
+def common_inline_names(fnode, table):
+    """the function with the loads of the given single-definition locals replaced by their values"""
+    import copy
+
+    class R(ast.NodeTransformer):
+        def visit_Name(self, n):
+            if isinstance(n.ctx, ast.Load) and n.id in table:
+                return copy.deepcopy(table[n.id])
+            return n
+    return R().visit(fnode)
+
+
+class _FlagTable(ast.NodeTransformer):
+    """np.isin(np.arange(S.n_plates), IDS)[S.plate_ids]  ->  np.isin(S.plate_ids, IDS): a per-plate flag table expanded to the rows through their
+    plate ids is the row-wise membership test, because plate ids are the dense range 0 .. n_plates - 1 (C01's invariant, trusted here)"""
+    def __init__(self, S):
+        self.S = S
+
+    def visit_Subscript(self, n):
+        self.generic_visit(n)
+        v = n.value
+        if isinstance(n.ctx, ast.Load) and U(n.slice) == f"{self.S}.plate_ids" and isinstance(v, ast.Call) and call_name(v) == "np.isin" and len(v.args) == 2 and not v.keywords \
+                and U(v.args[0]).replace(" ", "") in (f"np.arange({self.S}.n_plates)", f"np.arange(len({self.S}.unique_plate_ids))"):
+            return ast.copy_location(ast.Call(func=v.func, args=[n.slice, v.args[1]], keywords=[]), n)
+        return n
+
+
 def r2(ctx):
     f = ctx.fn("retrospective.reveal_plates")
+    if not getattr(f, "_flag_table_read", False):
+        env0 = single_defs(f.node)
+        # (a flag table kept in a local is read through first)
+        tables = {k: v for k, v in env0.items() if isinstance(v, ast.Call) and call_name(v) == "np.isin" and v.args and U(v.args[0]).replace(" ", "").startswith("np.arange(")}
+        if tables:
+            f.node = ast.fix_missing_locations(_FlagTable(f.params[0]).visit(common_inline_names(f.node, tables)))
+        else:
+            f.node = ast.fix_missing_locations(_FlagTable(f.params[0]).visit(f.node))
     class _S:
         pass
     s = _S()
